@@ -90,10 +90,18 @@ def _cfw(name: str) -> Any:
 
 # what a non-Arrow framework can produce, with the Arrow type pyarrow infers for it (= the documented "produced
 # column type" for that framework); values chosen so that inference is unambiguous
+import datetime as _datetime
+import decimal as _dec
+
 NONARROW_VALUES = {
     "A_int64": [1, 2], "A_float64": [1.5, 2.5], "A_bool": [True, False], "A_string": ["x", "y"],
     "A_binary": [b"x", b"y"],
+    # further kinds that pandas stores with dtype `object`: the Arrow type is decided by the cell contents, so runs in ONE
+    # process over frames of identical layout but different contents must each be judged on their own (history independence)
+    "A_decimal128": [_dec.Decimal("1.5"), _dec.Decimal("2.5")],
+    "A_date32": [_datetime.date(2020, 1, 1), _datetime.date(2021, 2, 3)],
 }
+NONARROW_NULLABLE = {"A_bool": [True, None]}      # object column of bools with a null (pandas) / None cell (python dict)
 
 
 def make_group(fw: str, aname: str, extra_untyped: bool, fg_type: Optional[str] = None) -> Any:
@@ -163,6 +171,24 @@ def e2e_one(fw: str, declared: Optional[str], aname: str, mode: str, mix: bool) 
         return "ok" if ncols == want else f"err:columns:{ncols}"
     except Exception as e:  # noqa: BLE001
         return classify_exc(e)
+
+
+def history_cases(rng: Any, n: int) -> List[dict]:
+    """Sequences of run_all calls in ONE process on a non-Arrow framework, same column name and layout, different cell kinds:
+    the outcome of every call must be what the same call gives on its own (no state carried between validations)."""
+    out = []
+    kinds = list(NONARROW_VALUES)
+    for _ in range(n):
+        fw = rng.choice(["PandasDataFrame", "PythonDictFramework"])
+        seq = []
+        for _ in range(rng.randrange(2, 5)):
+            an = rng.choice(kinds)
+            decl = rng.choice(DTYPES)
+            mode = rng.choice(["lenient", "strict_option"])
+            seq.append({"fw": fw, "declared": decl, "atype": an, "mode": mode, "mix": False,
+                        "obs": e2e_one(fw, decl, an, mode, False)})
+        out.append({"fw": fw, "seq": seq})
+    return out
 
 
 def _colnames(r: Any) -> List[str]:
@@ -335,6 +361,24 @@ def run(rep: vlib.Reporter, tier: str, seed: int) -> None:
             rep.finding(f"e2e:{c['fw']}:{c['declared']}:{c['atype']}:{c['mode']}:{c['mix']}:{c['obs']}",
                         f"run_all outcome {c['obs']!r} contradicts the documented table for {c}", {"kind": "e2e", **c})
             found_input = True
+
+    # (b2) histories on non-Arrow frameworks
+    import random as _random
+    hc = history_cases(_random.Random(seed * 31 + 17), 120 if tier == "thorough" else 25)
+    flat = [c for h in hc for c in h["seq"]]
+    badh, infoh = vlib.run_cases("C17", "history", REQ, "chk_e2e", [e2e_term(c) for c in flat], extra_defs=EXTRA_DEFS,
+                                 case_type="vcase * option bool")
+    rep.count(len(flat))
+    rep.add("histories", {**infoh, "sequences": len(hc), "calls": len(flat), "disagreements": len(badh)})
+    for i in badh[:10]:
+        c = flat[i]
+        h = [h_ for h_ in hc if c in h_["seq"]][0]
+        rep.finding(f"history:{c['fw']}:{[ (x['declared'], x['atype'], x['mode']) for x in h['seq']]}",
+                    f"in a sequence of run_all calls in one process the call {c} has an outcome that contradicts the documented table "
+                    f"(sequence: {[(x['declared'], x['atype'], x['obs']) for x in h['seq']]})", {"kind": "history", **h})
+        found_input = True
+    for h in hc:
+        rep.nontrivial(("h", h["fw"], [(x["declared"], x["atype"]) for x in h["seq"]]))
 
     # (c)
     cc = conflict_cases()
